@@ -1,4 +1,5 @@
 import ChiModel.LogLik
+import ChiModel.LogLikReduced
 import ChiProofs.Props.C04
 import Mathlib.Data.List.Sort
 import Mathlib.Order.Basic
@@ -305,5 +306,316 @@ theorem C01_posterior {α : Type} [Add α] [Sub α] [Mul α] [Div α] [Neg α] [
     logPosterior (.val p) (fun _ => .ok s) = .ok (Score.add (.val p) s) ∧
     logPosterior (Score.negInf : Score α) (fun _ => .ok s) = .ok .negInf := by
   simp [logPosterior]
+
+/-! ### likelihoods with fixed parameters (`fix_parameters`, reduced sub-models) -/
+
+section reduced
+open Reduced
+variable {β : Type}
+
+theorem c01_fill_length : ∀ (c : Cells β) (free : List β), nFree c ≤ free.length →
+    (fill c free).length = c.length := by
+  intro c
+  induction c with
+  | nil => intro free _; simp [fill]
+  | cons a cs ih =>
+    intro free h
+    obtain ⟨b, v⟩ := a
+    cases b with
+    | true =>
+      have h' : nFree cs ≤ free.length := by simpa [nFree, List.countP_cons] using h
+      simp [fill, ih free h']
+    | false =>
+      cases free with
+      | nil => simp [nFree, List.countP_cons] at h
+      | cons x xs =>
+        have h' : nFree cs ≤ xs.length := by
+          simp only [nFree, List.countP_cons, List.length_cons] at h ⊢
+          simpa using h
+        simp [fill, ih xs h']
+
+theorem c01_nFree_append (c1 c2 : Cells β) : nFree (c1 ++ c2) = nFree c1 + nFree c2 := by
+  simp [nFree, List.countP_append]
+
+theorem c01_nFree_flatten (cs : List (Cells β)) : nFree cs.flatten = (cs.map nFree).sum := by
+  induction cs with
+  | nil => simp [nFree]
+  | cons c cs ih => simp [c01_nFree_append, ih]
+
+theorem c01_fill_append : ∀ (c1 c2 : Cells β) (free : List β), nFree c1 ≤ free.length →
+    fill (c1 ++ c2) free = fill c1 (free.take (nFree c1)) ++ fill c2 (free.drop (nFree c1)) := by
+  intro c1
+  induction c1 with
+  | nil => intro c2 free _; simp [fill, nFree]
+  | cons a cs ih =>
+    intro c2 free h
+    obtain ⟨b, v⟩ := a
+    cases b with
+    | true =>
+      have h' : nFree cs ≤ free.length := by simpa [nFree, List.countP_cons] using h
+      have e : nFree ((true, v) :: cs) = nFree cs := by simp [nFree, List.countP_cons]
+      simp only [List.cons_append, fill, e, ih c2 free h']
+    | false =>
+      cases free with
+      | nil => simp [nFree, List.countP_cons] at h
+      | cons x xs =>
+        have h' : nFree cs ≤ xs.length := by
+          simp only [nFree, List.countP_cons, List.length_cons] at h ⊢
+          simpa using h
+        have e : nFree ((false, v) :: cs) = nFree cs + 1 := by simp [nFree, List.countP_cons]
+        simp only [List.cons_append, fill, e, List.take_succ_cons, List.drop_succ_cons, ih c2 xs h']
+
+theorem c01_errSlice_succ (c : Cells β) (cs : List (Cells β)) (tail : List β) (o : Nat) :
+    errSlice (c :: cs) tail (o + 1) = errSlice cs (tail.drop (nFree c)) o := by
+  simp only [errSlice, errStart, List.take_succ_cons, List.map_cons, List.sum_cons,
+    List.getD_cons_succ, List.drop_drop]
+
+theorem c01_errSlice_zero (c : Cells β) (cs : List (Cells β)) (tail : List β) :
+    errSlice (c :: cs) tail 0 = tail.take (nFree c) := by
+  simp [errSlice, errStart]
+
+theorem c01_errs_fill_flatMap : ∀ (errs : List (Cells β)) (tail : List β),
+    (errs.map nFree).sum ≤ tail.length →
+    (List.range errs.length).flatMap (fun o => fill (errs.getD o []) (errSlice errs tail o))
+      = fill errs.flatten tail := by
+  intro errs
+  induction errs with
+  | nil => intro tail _; simp [fill]
+  | cons c cs ih =>
+    intro tail h
+    have hc : nFree c ≤ tail.length := by
+      simp only [List.map_cons, List.sum_cons] at h; omega
+    have h2 : (cs.map nFree).sum ≤ (tail.drop (nFree c)).length := by
+      simp only [List.map_cons, List.sum_cons] at h
+      simp only [List.length_drop]; omega
+    rw [List.length_cons, List.range_succ_eq_map, List.flatMap_cons, List.flatMap_map,
+      List.flatten_cons, c01_fill_append c cs.flatten tail hc, ← ih (tail.drop (nFree c)) h2]
+    simp only [List.getD_cons_zero, c01_errSlice_zero, Function.comp_def, List.getD_cons_succ,
+      c01_errSlice_succ]
+
+/-- the split of the argument among the sub-models is the split of ONE buffer over the
+    concatenated cells: the mechanistic model and every output's error model each see exactly
+    their own entries, the free ones taken from the argument in order -/
+theorem C01_reduced_split (mech : Cells β) (errs : List (Cells β)) (x : List β)
+    (h : x.length = nFreeAll mech errs) :
+    reducedMech mech x ++ reducedSig mech errs x = fill (mech ++ errs.flatten) x := by
+  have hm : nFree mech ≤ x.length := by rw [h]; unfold nFreeAll; omega
+  have ht : (errs.map nFree).sum ≤ (x.drop (nFree mech)).length := by
+    rw [List.length_drop, h]; unfold nFreeAll; omega
+  rw [c01_fill_append mech errs.flatten x hm, ← c01_errs_fill_flatMap errs _ ht]
+  rfl
+
+/-- a full parameter vector that carries the fixed values at the fixed positions -/
+def CarriesFixed : Cells β → List β → Prop
+  | [], [] => True
+  | (b, v) :: cs, y :: ys => (b = true → y = v) ∧ CarriesFixed cs ys
+  | _, _ => False
+
+theorem c01_agrees_length : ∀ (c : Cells β) (full : List β), CarriesFixed c full →
+    full.length = c.length := by
+  intro c
+  induction c with
+  | nil => intro full h; cases full with
+    | nil => rfl
+    | cons _ _ => exact absurd h (by simp [CarriesFixed])
+  | cons a cs ih =>
+    intro full h
+    obtain ⟨b, v⟩ := a
+    cases full with
+    | nil => exact absurd h (by simp [CarriesFixed])
+    | cons y ys => simp [ih ys h.2]
+
+theorem c01_agrees_append : ∀ (c1 c2 : Cells β) (f1 f2 : List β), CarriesFixed c1 f1 →
+    CarriesFixed c2 f2 →
+    CarriesFixed (c1 ++ c2) (f1 ++ f2) := by
+  intro c1
+  induction c1 with
+  | nil => intro c2 f1 f2 h1 h2; cases f1 with
+    | nil => simpa using h2
+    | cons _ _ => exact absurd h1 (by simp [CarriesFixed])
+  | cons a cs ih =>
+    intro c2 f1 f2 h1 h2
+    obtain ⟨b, v⟩ := a
+    cases f1 with
+    | nil => exact absurd h1 (by simp [CarriesFixed])
+    | cons y ys => exact ⟨h1.1, ih c2 ys f2 h1.2 h2⟩
+
+/-- evaluating at the free entries of a full vector hands the full vector to the wrapped object -/
+theorem c01_fill_restrict : ∀ (c : Cells β) (full : List β), CarriesFixed c full →
+    fill c (restrict c full) = full ∧ (restrict c full).length = nFree c := by
+  intro c
+  induction c with
+  | nil => intro full h; cases full with
+    | nil => simp [fill, restrict, nFree]
+    | cons _ _ => exact absurd h (by simp [CarriesFixed])
+  | cons a cs ih =>
+    intro full h
+    obtain ⟨b, v⟩ := a
+    cases full with
+    | nil => exact absurd h (by simp [CarriesFixed])
+    | cons y ys =>
+      have := ih ys h.2
+      cases b with
+      | true =>
+        have hy : y = v := h.1 rfl
+        simp [fill, restrict, this.1, this.2, hy, nFree, List.countP_cons]
+      | false =>
+        simp [fill, restrict, this.1, this.2, nFree, List.countP_cons]
+
+/-- the measurement error is known (no free error-model parameter at all): the whole argument
+    goes to the mechanistic model, every error model receives an empty slice and is evaluated
+    with its fixed values -/
+theorem C01_reduced_all_error_fixed (mech : Cells β) (errs : List (Cells β)) (x : List β)
+    (h0 : ∀ c ∈ errs, nFree c = 0) (hx' : x.length = nFreeAll mech errs) :
+    reducedMech mech x = fill mech x ∧
+    ∀ o, reducedErr mech errs x o = fill (errs.getD o []) [] := by
+  have hs : (errs.map nFree).sum = 0 :=
+    List.sum_eq_zero (fun n hn => by
+      obtain ⟨c, hc, rfl⟩ := List.mem_map.mp hn
+      exact h0 c hc)
+  have hx : x.length = nFree mech := by rw [hx']; unfold nFreeAll; omega
+  refine ⟨by unfold reducedMech; rw [← hx, List.take_length], fun o => ?_⟩
+  unfold reducedErr errSlice
+  have : x.drop (nFree mech) = [] := by rw [← hx]; simp
+  rw [this]; simp
+
+theorem c01_parts_slice {γ : Type} : ∀ (parts : List (List γ)) (o : Nat),
+    (parts.flatten.drop ((parts.take o).map List.length).sum).take ((parts.getD o []).length)
+      = parts.getD o [] := by
+  intro parts
+  induction parts with
+  | nil => intro o; simp
+  | cons p ps ih =>
+    intro o
+    cases o with
+    | zero => simp
+    | succ o =>
+      have hd : ∀ (s : Nat) (rest : List γ), (p ++ rest).drop (p.length + s) = rest.drop s := by
+        intro s rest
+        rw [List.drop_append, List.drop_eq_nil_of_le (by omega)]
+        simp
+      simp only [List.take_succ_cons, List.map_cons, List.sum_cons, List.flatten_cons,
+        List.getD_cons_succ, hd]
+      exact ih o
+
+theorem c01_errStart_le (errs : List (Cells β)) : ∀ (o : Nat), o < errs.length →
+    errStart errs o + nFree (errs.getD o []) ≤ (errs.map nFree).sum := by
+  induction errs with
+  | nil => intro o h; simp at h
+  | cons c cs ih =>
+    intro o h
+    cases o with
+    | zero => simp [errStart]
+    | succ o =>
+      have := ih o (by simpa using h)
+      simp only [errStart, List.take_succ_cons, List.map_cons, List.sum_cons, List.getD_cons_succ] at this ⊢
+      omega
+
+theorem c01_reducedErr_length (mech : Cells β) (errs : List (Cells β)) (x : List β)
+    (hx : x.length = nFreeAll mech errs) (o : Nat) (ho : o < errs.length) :
+    (reducedErr mech errs x o).length = (errs.getD o []).length := by
+  unfold reducedErr
+  apply c01_fill_length
+  unfold errSlice
+  rw [List.length_take, List.length_drop, List.length_drop, hx]
+  have := c01_errStart_le errs o ho
+  unfold nFreeAll; omega
+
+/-- every output's error model is evaluated with its own filled buffer: the slice the score
+    accumulation takes for output `o` out of the concatenated error parameters is exactly what
+    error model `o` made of its own free entries -/
+theorem C01_reduced_error_model_sees_own [Add β] [Sub β] [Mul β] [Div β] [Neg β] [ScalarFns β]
+    (ems : List EM) (mech : Cells β) (errs : List (Cells β)) (x : List β)
+    (hx : x.length = nFreeAll mech errs) (hw : errs.map List.length = ems.map EM.nParams)
+    (o : Nat) (ho : o < ems.length) :
+    sliceFor ems (reducedSig mech errs x) o = reducedErr mech errs x o := by
+  have hlen : errs.length = ems.length := by simpa using congrArg List.length hw
+  have ho' : o < errs.length := by omega
+  let parts := (List.range errs.length).map (reducedErr mech errs x)
+  have hsig : reducedSig mech errs x = parts.flatten := by
+    simp only [reducedSig, parts, List.flatMap_def]
+  have hpl : parts.map List.length = ems.map EM.nParams := by
+    rw [← hw]
+    apply List.ext_getElem
+    · simp [parts]
+    · intro i h1 h2
+      have hi : i < errs.length := by simpa [parts] using h1
+      simp only [parts, List.getElem_map, List.getElem_range]
+      rw [c01_reducedErr_length mech errs x hx i hi]
+      simp [List.getD_eq_getElem?_getD, List.getElem?_eq_getElem hi]
+  have hpo : parts.getD o [] = reducedErr mech errs x o := by
+    simp [parts, List.getD_eq_getElem?_getD, List.getElem?_eq_getElem, ho']
+  have hn : (ems.getD o .gauss).nParams = (parts.getD o []).length := by
+    have h1 : (parts.map List.length)[o]? = (ems.map EM.nParams)[o]? := by rw [hpl]
+    have hop : o < parts.length := by simp [parts, ho']
+    simp only [List.getElem?_map, List.getElem?_eq_getElem ho, List.getElem?_eq_getElem hop,
+      Option.map_some] at h1
+    simp only [List.getD_eq_getElem?_getD, List.getElem?_eq_getElem ho,
+      List.getElem?_eq_getElem hop, Option.getD_some]
+    exact (Option.some.inj h1).symm
+  have hst : ((ems.take o).map EM.nParams).sum = ((parts.take o).map List.length).sum := by
+    rw [List.map_take, List.map_take, hpl]
+  show ((reducedSig mech errs x).drop ((ems.take o).map EM.nParams).sum).take
+      ((ems.getD o .gauss).nParams) = _
+  rw [hsig, hn, hst, c01_parts_slice parts o, hpo]
+
+section call
+variable {α : Type} [Add α] [Sub α] [Mul α] [Div α] [Neg α] [ScalarFns α]
+variable {τ : Type} [LinearOrder τ]
+
+/-- C01 for likelihoods with fixed parameters: evaluating the reduced object at the free entries
+    of a full vector `(psi, sigma)` (which carries the fixed values at the fixed positions) is
+    evaluating the unreduced object at `(psi, sigma)` — whichever parameters are fixed:
+    none, some, all error-model parameters, all mechanistic parameters, everything. -/
+theorem C01_reduced_call_eq_full (legacy : Bool) (ems : List EM) (F : List α → Nat → τ → α)
+    (data : List (OutData τ α)) (mech : Cells α) (errs : List (Cells α)) (psi sig : List α)
+    (hm : CarriesFixed mech psi) (he : CarriesFixed errs.flatten sig) :
+    llReducedCall legacy ltB ems F data mech errs (restrict (mech ++ errs.flatten) (psi ++ sig))
+      = llCall legacy ltB ems (F psi) data sig := by
+  obtain ⟨hfill, hlen⟩ := c01_fill_restrict _ _ (c01_agrees_append _ _ _ _ hm he)
+  generalize restrict (mech ++ errs.flatten) (psi ++ sig) = x at hfill hlen
+  have hx : x.length = nFreeAll mech errs := by
+    rw [hlen, c01_nFree_append, c01_nFree_flatten]; rfl
+  have hsplit := C01_reduced_split mech errs x hx
+  rw [hfill] at hsplit
+  have hl : (reducedMech mech x).length = psi.length := by
+    unfold reducedMech
+    rw [c01_fill_length, c01_agrees_length _ _ hm]
+    rw [List.length_take, hx]; unfold nFreeAll; omega
+  obtain ⟨h1, h2⟩ := List.append_inj hsplit hl
+  unfold llReducedCall
+  rw [if_neg (by simpa using hx), h1, h2]
+
+/-- … hence it is the sum over all measurements (repaired selection; no condition on ties) -/
+theorem C01_reduced_call_eq_spec (ems : List EM) (F : List α → Nat → τ → α)
+    (data : List (OutData τ α)) (mech : Cells α) (errs : List (Cells α)) (psi sig : List α)
+    (hshape : WellShaped data) (hm : CarriesFixed mech psi)
+    (he : CarriesFixed errs.flatten sig) :
+    llReducedCall false ltB ems F data mech errs (restrict (mech ++ errs.flatten) (psi ++ sig))
+      = .ok (llSpec ems (F psi) data sig) := by
+  rw [C01_reduced_call_eq_full false ems F data mech errs psi sig hm he]
+  exact C01_call_eq_spec ems (F psi) data sig hshape
+
+/-- a wrong number of free parameters is rejected, never silently re-interpreted -/
+theorem C01_reduced_wrong_length (legacy : Bool) (ems : List EM) (F : List α → Nat → τ → α)
+    (data : List (OutData τ α)) (mech : Cells α) (errs : List (Cells α)) (x : List α)
+    (h : x.length ≠ nFreeAll mech errs) :
+    llReducedCall legacy ltB ems F data mech errs x = .error .shapeMismatch := by
+  unfold llReducedCall; rw [if_pos h]
+
+end call
+
+/-- non-vacuity: two mechanistic parameters, one Gaussian output whose sigma is fixed at 3 -/
+example : reducedMech [(false, 0), (false, 0)] [10, 20] = [10, 20] ∧
+    reducedSig [(false, 0), (false, 0)] [[(true, 3)]] [10, 20] = [3] := by decide
+example : CarriesFixed [(false, 0), (false, 0)] [10, 20] ∧
+    CarriesFixed [[(true, 3)]].flatten [3] := by
+  simp [CarriesFixed]
+/-- psi1 fixed, CM output with its second parameter fixed, Gaussian output free -/
+example : reducedMech [(false, 0), (true, 7)] [10, 20, 30] = [10, 7] ∧
+    reducedSig [(false, 0), (true, 7)] [[(false, 0), (true, 5)], [(false, 0)]] [10, 20, 30]
+      = [20, 5, 30] := by decide
+
+end reduced
 
 end ChiModel
